@@ -20,7 +20,9 @@ RULE = ('histories: action kind (snapshot / log / metric) x fire_count text x fi
         'globals and a generated host function, run on REAL frames (sys.settrace) or as frame-like mocks, with a '
         'condition, watches, a log template and a metric whose expressions name locals, host globals, builtins, '
         'names that exist only in the agent\'s modules (must be NameError), host names that collide with agent names, '
-        'attribute / index / call expressions and expressions raising any BaseException subclass. Non-trivial: a '
+        'attribute / index / call expressions and expressions raising any BaseException subclass; multi: 2-3 '
+        'tracepoints on ONE line (merged into one trigger as convert_response does, or installed as separate triggers), '
+        'each with its own condition function, limits and action kind, judged per tracepoint. Non-trivial: a '
         'history with at least one condition-rejected hit followed by a collection, or a scope case with at least one '
         'failing and one succeeding expression. Distinct = distinct canonical JSON of the case.')
 TRUSTED = ['Python eval / str on live values is the eval oracle (reference evaluation in a copy of the environment)',
@@ -162,11 +164,42 @@ def gen_scope(rng):
     return case
 
 
+def gen_multi(rng):
+    """2-3 tracepoints on ONE line, each with its own condition function, limits and action kind"""
+    n = rng.choice([2, 2, 3])
+    tps = []
+    for i in range(n):
+        cfg = {}
+        fc, fp = rng.choice([None, '-1', '1', '2']), rng.choice([None, '0', '1000'])
+        if fc is not None:
+            cfg['fire_count'] = fc
+        if fp is not None:
+            cfg['fire_period'] = fp
+        tps.append({'action': rng.choice(KINDS), 'cfg': cfg,
+                    'condition': rng.choice(['c%d()' % i] * 5 + [None, '', ' c%d() ' % i])})
+    hits, ts = [], rng.randint(1, 10 ** 6)
+    for _ in range(rng.randint(1, 8)):
+        ts += rng.choice([1, 999_999, 1_000_000, 1_000_000_000, 1_000_000_001])
+        conds = []
+        for i in range(n):
+            c = rng.random()
+            if c < 0.45:
+                conds.append({'k': 'true'})
+            elif c < 0.75:
+                conds.append({'k': 'false'})
+            else:
+                conds.append({'k': 'raise', 'cls': rng.choice(sorted(X.EXC_CLASSES)), 'msg': rng.choice(MSGS)})
+        hits.append({'ts': ts, 'conds': conds})
+    return {'kind': 'multi', 'install': rng.choice(['merged', 'separate']), 'tps': tps, 'hits': hits}
+
+
 def gen(rng, tier):
     k = 0
     while True:
         k += 1
-        if k % 4 == 0:
+        if k % 7 == 0:
+            yield gen_multi(rng)
+        elif k % 4 == 0:
             yield gen_scope(rng)
         elif k % 9 == 0:
             yield gen_history(rng, nonbool=True)
@@ -195,6 +228,17 @@ def corpus():
          'watches': ['G', 'uuid', 'FrameType', 'time_ns', 'x', 'len', 'p', 'p + 1', 'nope'],
          'condition': 'G == "G:G"', 'frame_type': None, 'log_fields': ['G', 'FrameType'],
          'metric': {'expr': 'p', 'labels': [['l1', 'G'], ['l2', 'uuid'], ['l3', 'time_ns']]}},
+        # two tracepoints on one line with different conditions: each is judged on its own condition
+        {'kind': 'multi', 'install': 'merged',
+         'tps': [{'action': 'snapshot', 'cfg': {'fire_count': '-1', 'fire_period': '0'}, 'condition': 'c0()'},
+                 {'action': 'snapshot', 'cfg': {'fire_count': '-1', 'fire_period': '0'}, 'condition': 'c1()'}],
+         'hits': [{'ts': 10, 'conds': [t, f]}, {'ts': 20, 'conds': [f, t]},
+                  {'ts': 30, 'conds': [{'k': 'raise', 'cls': 'KeyError', 'msg': 1}, t]}]},
+        {'kind': 'multi', 'install': 'separate',
+         'tps': [{'action': 'log', 'cfg': {'fire_count': '1'}, 'condition': 'c0()'},
+                 {'action': 'metric', 'cfg': {'fire_count': '-1', 'fire_period': '0'}, 'condition': 'c1()'},
+                 {'action': 'snapshot', 'cfg': {}, 'condition': None}],
+         'hits': [{'ts': 10, 'conds': [f, t, f]}, {'ts': 20, 'conds': [t, f, f]}, {'ts': 9 * 10 ** 9, 'conds': [t, t, t]}]},
     ]
 
 
@@ -268,6 +312,69 @@ def run_history(case):
         rig.close()
 
 
+def run_multi(case):
+    from deep.api.tracepoint.trigger import build_trigger
+    from deep.api.tracepoint.tracepoint_config import MetricDefinition
+    rig = Rig(metric=True)
+    try:
+        trigs = []
+        for i, tp in enumerate(case['tps']):
+            args = dict(tp['cfg'])
+            if tp['condition'] is not None:
+                args['condition'] = tp['condition']
+            metrics = []
+            if tp['action'] == 'log':
+                args.update(snapshot='no_collect', log_msg='hit')
+            elif tp['action'] == 'metric':
+                args['snapshot'] = 'no_collect'
+                metrics = [MetricDefinition('m%d' % i, 'COUNTER')]
+            else:
+                args['frame_type'] = 'no_frame'
+            trigs.append(build_trigger('tp%d' % i, 'host.py', 7, args, [], metrics))
+        if case['install'] == 'merged':       # what grpc.convert_response does with tracepoints of one location
+            for t in trigs[1:]:
+                trigs[0].merge_actions(t.actions)
+            trigs = trigs[:1]
+        rig.install(trigs)
+        n = len(case['tps'])
+        state = {'conds': None, 'calls': [0] * n}
+
+        def mk(i):
+            def c():
+                state['calls'][i] += 1
+                cd = state['conds'][i]
+                if cd['k'] == 'raise':
+                    raise make_exc(cd)
+                return cd['k'] == 'true'
+            return c
+        loc = {'c%d' % i: mk(i) for i in range(n)}
+        fired, evals = [[] for _ in range(n)], [[] for _ in range(n)]
+        for h in case['hits']:
+            state['conds'] = h['conds']
+            state['calls'] = [0] * n
+            rig.clock = h['ts']
+            b = (len(rig.push.pushed), len(rig.logger.logged), len(rig.metric.calls))
+            try:
+                rig.handler.trace_call(MockFrame('/app/host.py', 'fn', 7, dict(loc)), 'line', None)
+            except BaseException as e:  # noqa: B902
+                return {'raised': f'{type(e).__name__}: {e}', 'fired': fired, 'evals': evals}
+            who = [s.tracepoint.id for s in rig.push.pushed[b[0]:]] + [l[1] for l in rig.logger.logged[b[1]:]] + \
+                  ['tp' + c[1][1:] for c in rig.metric.calls[b[2]:]]
+            for i in range(n):
+                fired[i].append(who.count('tp%d' % i))
+                evals[i].append(state['calls'][i])
+        return {'fired': fired, 'evals': evals}
+    finally:
+        rig.close()
+
+
+def multi_as_histories(case):
+    """each tracepoint of a multi case seen alone"""
+    return [{'kind': 'history', 'stream': 'bool', 'action': tp['action'], 'cfg': tp['cfg'], 'condition': tp['condition'],
+             'hits': [{'ts': h['ts'], 'cond': h['conds'][i]} for h in case['hits']]}
+            for i, tp in enumerate(case['tps'])]
+
+
 def scope_env(case):
     """(module, function or None, line, param values) — built fresh for every run"""
     name = X.unique('verif_host_c10')
@@ -331,6 +438,8 @@ def run_scope(case):
 
 
 def run_impl(case):
+    if case['kind'] == 'multi':
+        return run_multi(case)
     return run_history(case) if case['kind'] == 'history' else run_scope(case)
 
 
@@ -379,6 +488,21 @@ def oracle(case, obs):
     v = []
     if 'raised' in obs:
         return ['the agent raised into the host: ' + obs['raised']]
+    if case['kind'] == 'multi':
+        for i, hc in enumerate(multi_as_histories(case)):
+            fired, evals = reference_history(hc)
+            got = [x == 1 for x in obs['fired'][i]]
+            if any(x > 1 for x in obs['fired'][i]):
+                v.append(f'tracepoint tp{i}: more than one collection at one hit: {obs["fired"][i]}')
+            elif got != fired:
+                j = next(j for j, (a, b) in enumerate(zip(got, fired)) if a != b)
+                v.append(f'tracepoint tp{i} (condition {hc["condition"]!r}) hit {j}: its condition is '
+                         f'{hc["hits"][j]["cond"]} but it ' + ('collected' if got[j] else 'did not collect') +
+                         f' (the other tracepoints of the line: {[c for k, c in enumerate(case["hits"][j]["conds"]) if k != i]})')
+            if obs['evals'][i] != evals:
+                j = next(j for j, (a, b) in enumerate(zip(obs['evals'][i], evals)) if a != b)
+                v.append(f'tracepoint tp{i} hit {j}: condition evaluated {obs["evals"][i][j]} times, expected {evals[j]}')
+        return v[:4]
     if case['kind'] == 'history':
         fired, evals = reference_history(case)
         if obs['fired'] != fired:
@@ -457,6 +581,8 @@ def name_bindings(case):
 def model_request(case, obs):
     if 'raised' in obs:
         return None
+    if case['kind'] == 'multi':
+        return {'op': 'runN', 'runs': [model_request(hc, obs) for hc in multi_as_histories(case)]}
     if case['kind'] == 'history':
         cfg = dict(case['cfg'])
         if case['condition'] is not None:
@@ -486,6 +612,14 @@ def observed_binding(case, n, w):
 def compare(case, obs, resp):
     if 'error' in resp:
         return ['model error: ' + resp['error']]
+    if case['kind'] == 'multi':
+        d = []
+        for i, r in enumerate(resp['runs']):
+            got = [x == 1 for x in obs['fired'][i]]
+            if r['fired'] != got or r['evals'] != obs['evals'][i]:
+                d.append(f'tp{i}: model fired {r["fired"]} evals {r["evals"]} vs implementation {obs["fired"][i]} '
+                         f'{obs["evals"][i]}')
+        return d
     if case['kind'] == 'history':
         d = []
         if resp['fired'] != obs['fired']:
@@ -508,6 +642,8 @@ def compare(case, obs, resp):
 
 
 def label(case, obs):
+    if case['kind'] == 'multi':
+        return f"multi/{case['install']}/{len(case['tps'])}"
     if case['kind'] == 'history':
         f = obs.get('fired', [])
         n = sum(1 for x in f if x)
@@ -517,6 +653,10 @@ def label(case, obs):
 
 
 def nontrivial(case, obs):
+    if case['kind'] == 'multi':
+        # some hit at which two tracepoints with conditions disagree
+        return any(len({c['k'] == 'true' for c, tp in zip(h['conds'], case['tps']) if not blank(tp['condition'])}) > 1
+                   for h in case['hits'])
     if case['kind'] == 'history':
         if blank(case['condition']):
             return False
@@ -534,6 +674,23 @@ def nontrivial(case, obs):
 
 
 def shrink(case):
+    if case['kind'] == 'multi':
+        for i in range(len(case['hits'])):
+            c = dict(case)
+            c['hits'] = case['hits'][:i] + case['hits'][i + 1:]
+            if c['hits']:
+                yield c
+        if len(case['tps']) > 2:
+            for i in range(len(case['tps'])):
+                c = dict(case)
+                c['tps'] = case['tps'][:i] + case['tps'][i + 1:]
+                c['hits'] = [{'ts': h['ts'], 'conds': h['conds'][:i] + h['conds'][i + 1:]} for h in case['hits']]
+                # conditions are named after their position: rename
+                c['tps'] = [dict(tp, condition=(tp['condition'] if tp['condition'] is None or 'c' not in tp['condition']
+                                                else tp['condition'].replace('c%d' % (j if j < i else j + 1), 'c%d' % j)))
+                            for j, tp in enumerate(c['tps'])]
+                yield c
+        return
     if case['kind'] == 'history':
         hs = case['hits']
         for i in range(len(hs)):
